@@ -1,9 +1,12 @@
 #!/bin/sh
-# Runs the quick (default) or thorough tier of every registered check; prints the summary lines.
+# Runs the quick (default) or thorough tier of every registered check (or of those named after the tier); prints the summary lines.
 TIER=${1:-quick}
 cd "$(dirname "$0")/.."
 rc=0
-for p in $(/venv/bin/python -c "from simkit.plans import PLANS; print(' '.join(sorted(PLANS)))"); do
+shift 2>/dev/null
+LIST="$*"
+[ -z "$LIST" ] && LIST=$(/venv/bin/python -c "from simkit.plans import PLANS; print(' '.join(sorted(PLANS)))")
+for p in $LIST; do
   timeout 3000 /venv/bin/python -m simkit.check $p --tier $TIER > /tmp/runall_$p.log 2>&1
   r=$?
   [ $r -ne 0 ] && rc=1
